@@ -20,6 +20,10 @@ if os.path.exists(os.path.join(vlib.LEAN_DIR, "Yarel", "Props", "C17.lean")):
     THEOREM_MODULES = ["Yarel.Props.C17", "Yarel.Props.SpecTraces"]
     REQUIRED_THEOREMS = ["lines_parallel", "chunk_vectors_change_only_in_step", "kind_class_roundtrip", "traceLines_one_per_active_call", "traceLines_innermost_first",
                          "uncaught_outcome_is_error_with_trace"]
+# the state the models abstract is all the state there is: the fields of the run-time structures, regenerated on every run, are the ones
+# the models were written against (Props/StateInventory)
+THEOREM_MODULES.append("Yarel.Props.StateInventory")
+REQUIRED_THEOREMS += ['state_of_compiler']
 USES_GEN = True
 LEVEL = "proof"
 ASSUMPTIONS = [
